@@ -11,12 +11,12 @@ HARNESS_BIN = "engine"
 SINGLE = []      # no known finding left for the acyclic engine (F1, F14 fixed by 2abe9f6, b832249)
 PARTIAL = [
     "Qbice.CoreFw.core_query_sound_partial / core_inner_query_sound_partial / core_history_sound_partial / "
-    "core_*_no_out_of_fuel_partial: proved for ALL acyclic programs WITHOUT projection nodes (input, normal, firewall, "
-    "external-input queries; ordered reads and unordered groups; transitive-firewall-callee sets, the trust rule for "
+    "core_*_no_out_of_fuel_partial: proved for ALL acyclic programs in which no projection reads a projection (hypothesis NoProjOverProj: input, normal, firewall, "
+    "projection-over-firewall and external-input queries; ordered reads and unordered groups; transitive-firewall-callee sets, the trust rule for "
     "clean edges, same-epoch propagation from a changed firewall, pending flags) = the design of the code after the "
-    "fixes b832249 and 2abe9f6. Projection nodes (backward projection) are in the model (validated against the full "
+    "fixes b832249 and 2abe9f6. Projections over projections are in the model (validated against the full "
     "model and the oracle on 240 000 generated cases with 0 differences, and compared with the implementation on every "
-    "run) but the invariant for pending flags over projection chains is not proved: C01_full_statement / "
+    "run) but the invariant for pending flags over chains of projections is not proved: C01_full_statement / "
     "C01_termination_full_statement are kept as defs. The firewall-free theorems (Qbice.Core.*) remain, and C07/C08 "
     "build on them.",
 ]
